@@ -12,11 +12,13 @@ mkdir -p /tmp/mutrun "$OUT"
 HEAD=$(git -C /repo rev-parse HEAD)
 if [ ! -d "$WT" ]; then git -C /repo worktree add -q --detach "$WT" "$HEAD" || exit 2; fi
 git -C "$WT" checkout -q --detach "$HEAD" && git -C "$WT" checkout -q -- . && git -C "$WT" clean -fdq -e target
-DEMO=$(grep -oE 'precis-(core|profiles|tools)/tests/[A-Za-z0-9_]+\.rs' "$M/notes.md" | head -1)
+DEMO=$(grep -oE 'precis-(core|profiles|tools)/tests/[A-Za-z0-9_]*demo[A-Za-z0-9_]*\.rs' "$M/notes.md" | head -1)
 [ -n "$DEMO" ] || DEMO=precis-profiles/tests/demo.rs
 CRATE=$(echo "$DEMO" | cut -d/ -f1); TNAME=$(basename "$DEMO" .rs)
 export CARGO_NET_OFFLINE=true
 run_demo() { (cd "$WT" && timeout 900 cargo test --offline -p "$CRATE" --test "$TNAME" >"$OUT/demo.log" 2>&1); }
+mkdir -p "$(dirname "$WT/$DEMO")"
+[ -e "$WT/$DEMO" ] && { echo "RESULT $(basename $(dirname $M))/$(basename $M) demo path $DEMO already exists in the tree"; exit 2; }
 cp "$M/demo.rs" "$WT/$DEMO"
 run_demo; DC=$?
 git -C "$WT" apply "$M/patch.diff" || { echo "RESULT $(basename $(dirname $M))/$(basename $M) patch does not apply"; exit 2; }
